@@ -123,7 +123,7 @@ def _check(prop, fam, tier, seed, replay, scr, t0):
         clause, tr, i = v[1], v[2], v[3]
         ln = line_at.get((tr, i), {})
         op = ln.get("op", {})
-        kf = match_known(prop, clause, op, known)
+        kf = match_known(prop, clause, op, known, tr)
         if kf:
             key = (kf.get("id"),)
             if key not in seen:
